@@ -218,11 +218,21 @@ def check_interleavings(vt, lazy, xts, policy, limit: int) -> Tuple[Optional[dic
             while True:
                 co.send(None)
                 n += 1
+        except StopIteration:
+            pass
+        except Exception:  # noqa
+            pass
+        steps.append(n + 1)
+        # what the call must return: what the wrapped validator returns, no cache involved
+        ctx = Ctx(G.STD_CLASSES, lazy)
+        co = ctx.validator(vt).validate_async(to_py(xt, ctx.ct))
+        try:
+            while True:
+                co.send(None)
         except StopIteration as s:
             alone.append((ctx, s.value))
         except Exception as e:  # noqa
             alone.append((ctx, e))
-        steps.append(n + 1)
     count = 0
     for sc in interleavings(steps):
         count += 1
@@ -284,6 +294,40 @@ def event_terms(ctx, cache, ops, outs) -> list:
                 ev.append(("ESet", x_t, ctx.result(g[2])))
         evs.append(ev)
     return evs
+
+
+def check_gather(vt, lazy, xts, policy) -> Optional[dict]:
+    """Overlapping calls started together on a real event loop: each returns what the wrapped validator
+    returns for its own input, and the wrapped validator runs once per miss."""
+    import asyncio
+    alone = []
+    for xt in xts:
+        ctx = Ctx(G.STD_CLASSES, lazy)
+        v = ctx.validator(vt)
+        try:
+            alone.append((ctx, drive(v.validate_async(to_py(xt, ctx.ct)))))
+        except Exception as e:  # noqa
+            alone.append((ctx, e))
+    ctx = Ctx(G.STD_CLASSES, lazy)
+    cnt = Counting(ctx.validator(vt))
+    cache = LogCache(cnt, policy, ctx.ct)
+    xs = [to_py(xt, ctx.ct) for xt in xts]
+
+    async def together():
+        return await asyncio.gather(*[cache.validate_async(x) for x in xs], return_exceptions=True)
+    res = drive(together())
+    for i, (r, (actx, a)) in enumerate(zip(res, alone)):
+        if isinstance(a, Exception) or isinstance(r, Exception):
+            if type(a) is not type(r):
+                return {"signature": "C20:overlapping", "what": f"calls {xs!r} started together: call {i} gave {r!r}, the wrapped validator gives {a!r}"}
+            continue
+        if not same_result_cross(ctx, r, actx, a):
+            return {"signature": "C20:overlapping", "what": f"calls {xs!r} started together: call {i} returned {r!r}, the wrapped validator returns {a!r}"}
+    misses = sum(1 for ev in cache.log if ev[0] == "get" and not ev[2])
+    if len(cnt.runs) != misses:
+        return {"signature": "C20:runs-not-once-per-miss",
+                "what": f"calls {xs!r} started together: {misses} lookups missed but the wrapped validator ran {len(cnt.runs)} times"}
+    return None
 
 
 def run(tier: str, rng: random.Random, proof_ok: bool) -> dict:
@@ -352,11 +396,48 @@ def run(tier: str, rng: random.Random, proof_ok: bool) -> dict:
                     seen.add(r["signature"])
                     violations.append({"kind": "oracle", **r,
                                        "replay_case": {"v": to_json(vt), "inputs": [to_json(x) for x in xts], "interleaving": True}})
+    # (c') the same call sets, and equal-but-distinct inputs, started together on a real event loop
+    LAZYV = [("ListV", AINT, [], [], None)]
+    together = fixed + [(AINT, [G.I(2), G.I(3), G.I(0)]), (INT, [G.I(1), G.TRUE, G.F1, G.D1]), (INT, [G.I(0), G.FALSE, G.F0]),
+                        (("ListV", AINT, [], [], None), [("VList", [G.I(2)]), ("VList", [G.I(3), G.I(0)]), ("VList", [])]),
+                        (("DictAnyV", [P(G.S("a"), AINT)], None, None, False), [("VDict", [P(G.S("a"), G.I(2))]), ("VDict", [P(G.S("a"), G.I(3))])]),
+                        (("UserV", N(1), False), [G.I(2), G.I(3)]),
+                        (("OptionalV", ("NoneV", None), AINT), [G.NONE, G.I(2), G.I(3)])]
+    n_gather = 0
+    for vt, alpha in together:
+        for k in (2, 3):
+            for xts in itertools.product(alpha, repeat=k):
+                if k == 3 and rng.random() < (0.6 if tier == "quick" else 0.0):
+                    continue
+                for policy in ("id", "eq"):
+                    n_gather += 1
+                    try:
+                        r = check_gather(vt, [], list(xts), policy)
+                    except HarnessError:
+                        continue
+                    if r and r["signature"] not in seen:
+                        seen.add(r["signature"])
+                        violations.append({"kind": "oracle", **r,
+                                           "replay_case": {"v": to_json(vt), "inputs": [to_json(x) for x in xts], "gather": policy}})
+    # (a') async-only histories over wrapped validators whose async-only checks sit at or below the top
+    for vt, alpha in [(AINT, [G.I(2), G.I(3)]), (("ListV", AINT, [], [], None), [("VList", [G.I(2)]), ("VList", [G.I(3)]), ("VList", [])]),
+                      (("UserV", N(1), False), [G.I(2), G.I(3)]), (("OptionalV", ("NoneV", None), AINT), [G.NONE, G.I(2)]),
+                      (("LazyV", N(0), False), [("VList", [G.I(2)]), ("VList", [G.I(5)])])]:
+        for k in range(1, 4):
+            for xs in itertools.product(alpha, repeat=k):
+                ops = [("async", x) for x in xs]
+                for policy in ("id", "eq"):
+                    n_hist += 1
+                    r = check_history(vt, LAZYV, ops, policy)
+                    if r and r["signature"] not in seen:
+                        seen.add(r["signature"])
+                        violations.append({"kind": "oracle", **r,
+                                           "replay_case": {"v": to_json(vt), "lazy": to_json(LAZYV), "ops": [[m, to_json(x)] for m, x in ops], "policy": policy}})
     # (d) correspondence: the model's history function on the same histories
     mism, n_coq = model_histories(coq_items, violations)
     cov = {"evaluations": n_hist + n_sched, "distinct_nontrivial": n_hist + n_inter,
            "rule": "histories (exhaustive to length L over 3-input alphabets x {sync, async} x {identity, equality} stores, plus sampled) and schedules (all interleavings of 2-3 overlapping async calls at their real suspension points)",
-           "histories": n_hist, "interleaved_call_sets": n_inter, "schedules": n_sched,
+           "histories": n_hist, "interleaved_call_sets": n_inter, "schedules": n_sched, "call_sets_started_together": n_gather,
            "model_histories_compared": n_coq, "mismatches": mism, "samples": samples or [{"note": "see rule"}],
            "traces_validated_against_impl": n_coq, "corr_wall_s": round(time.time() - t0, 1)}
     return {"violations": violations, "coverage": cov}
@@ -446,6 +527,8 @@ def replay(path: str) -> int:
     lazy = from_json(rc.get("lazy", []))
     if rc.get("interleaving"):
         r, _ = check_interleavings(vt, lazy, [from_json(x) for x in rc["inputs"]], "eq", 100000)
+    elif rc.get("gather"):
+        r = check_gather(vt, lazy, [from_json(x) for x in rc["inputs"]], rc["gather"])
     else:
         r = check_history(vt, lazy, [(m, from_json(x)) for m, x in rc["ops"]], rc.get("policy", "eq"))
     print("violation:" if r else "property holds on this history", r["what"] if r else "")
